@@ -471,10 +471,21 @@ def _patho_more(r, c, n):
                 + "".join("ENTITY %s SUBTYPE OF (top);\nEND_ENTITY;\n" % x for x in subs) + "END_SCHEMA;\n")
     if c == "subtype-cycle":
         m = r.choice([1, 2, 3])
-        return ("SCHEMA patho;\n" + "".join("ENTITY e%d SUBTYPE OF (e%d);\n a%d : INTEGER;\nEND_ENTITY;\n" % (k, (k + 1) % m, k) for k in range(m)) + "END_SCHEMA;\n")
+        cyc = "".join("ENTITY e%d SUBTYPE OF (e%d);\n a%d : INTEGER;\nEND_ENTITY;\n" % (k, (k + 1) % m, k) for k in range(m))
+        # a user of the cycle: inherited / missing attributes looked up through it in every clause that can name one
+        use = r.choice(["", "", "x : INTEGER;", "x : INTEGER;\nDERIVE\n d : INTEGER := a0 + nosuch;", "DERIVE\n SELF\\e0.a0 : INTEGER := 1;",
+                        "x : INTEGER;\nUNIQUE\n u : a0, x;", "x : INTEGER;\nWHERE\n w : SELF\\e0.nosuch > x;", "r : e0;\nWHERE\n w : r.nosuch = r.a0;",
+                        "INVERSE\n i : SET OF holder FOR h;"])
+        sup = r.choice(["", " SUPERTYPE OF (ONEOF (e0, user))"])
+        extra = "ENTITY holder%s;\n h : e0;\nEND_ENTITY;\n" % sup if r.random() < 0.7 else ""
+        return "SCHEMA patho;\n" + cyc + "ENTITY user SUBTYPE OF (e0);\n %s\nEND_ENTITY;\n" % use + extra + "END_SCHEMA;\n"
     if c == "select-cycle":
         m = r.choice([1, 2, 3])
-        return ("SCHEMA patho;\n" + "".join("TYPE s%d = SELECT (s%d); END_TYPE;\n" % (k, (k + 1) % m) for k in range(m)) + "ENTITY e; a : s0;\nEND_ENTITY;\nEND_SCHEMA;\n")
+        other = r.choice(["", ", e", ", l", ", INTEGER"]).replace(", INTEGER", ", n")
+        cyc = "".join("TYPE s%d = SELECT (s%d%s); END_TYPE;\n" % (k, (k + 1) % m, other if k == 0 else "") for k in range(m))
+        use = r.choice(["", "WHERE\n w : SIZEOF(QUERY(q <* a | TRUE)) = 0;", "WHERE\n w : a[1] = 1;", "WHERE\n w : 'PATHO.E' IN TYPEOF(a);", "WHERE\n w : a.b = 1;",
+                        "DERIVE\n d : INTEGER := SIZEOF(a);", "WHERE\n w : a = a;", "DERIVE\n d : s0 := a;", "WHERE\n w : a\\e.b = 1;"])
+        return ("SCHEMA patho;\nTYPE n = INTEGER; END_TYPE;\nTYPE l = LIST OF INTEGER; END_TYPE;\n" + cyc + "ENTITY e; a : s0; b : INTEGER; c : LIST OF s1;\n%s\nEND_ENTITY;\nEND_SCHEMA;\n" % use)
     if c == "type-cycle":
         m = r.choice([1, 2, 3])
         agg = r.choice(["", "LIST OF ", "ARRAY [1:2] OF "])
